@@ -55,6 +55,14 @@ def adapters(facts):
 def count_rule(facts, rep, rule="C09-COUNT", only=None):
     okall = True
     ads = adapters(facts)
+    # the crate's adapters implement the REQUIRED methods only: read_to_end / read_exact / write_all / ... stay std's loops over
+    # read()/write(), which is what makes the per-call count contract (and the end-of-data checks inside read()) cover them.  An
+    # override such as a pre-sizing read_to_end built on read_exact never asks the wrapped reader for its end of data.
+    extra = sorted("%s::%s" % (f.impl_self, f.name) for f in facts.fns
+                   if f.impl_trait in ("std::io::Read", "std::io::Write", "std::io::BufRead") and f.kind == "AssocFn" and f.name not in ("read", "write", "flush"))
+    okall &= bool(rep.check(not extra, rule, "io-impls-define-only-required-methods", "", "impl Read / impl Write define read / write+flush only",
+                            "provided I/O methods are overridden: %s (their std definitions in terms of read()/write() are what the count and "
+                            "end-of-data rules reason about)" % extra))
     for f, kind in ads:
         if only and not re.search(only, f.path):
             continue
